@@ -152,8 +152,11 @@ func ownRule(c *Ctx, rule string, scope func(*ssa.Function) bool) *Own {
 func checkC27(c *Ctx) {
 	c.Rule("C27.own", "ownership of constant storage (module-wide byte-slice ownership analysis with parameter summaries): nothing writes through Const.bs / Const.Bytes() or keeps such bytes in storage that is modified later")
 	c.Rule("C27.fresh", "expr.newConst is called only with fresh storage (make / literal) or with a slice of another constant's storage; an exported constructor never stores the caller's slice itself")
+	c.Rule("C27.encode", "NewConstUint/NewConstInt fill a fresh w-byte slice in a range loop with byte(val) at the loop index and val >>= 8 per step (little-endian two's complement)")
+	c.Rule("C27.range", "decision table by path enumeration behind the encoding loop: NewConstUint panics exactly when the shifted-out rest is non-zero; NewConstInt panics exactly when the rest is not the sign extension of the top stored byte (rest==0 with top<128, or rest==-1 with top>=128)")
 	all := func(fn *ssa.Function) bool { return true }
 	ownRule(c, "C27.own", all)
+	checkConstRange(c)
 	nc := anchor(c, "pkg/expr.newConst")
 	if nc == nil {
 		return
@@ -216,6 +219,150 @@ func checkC27(c *Ctx) {
 	c.Oblige("C27.fresh", "only-newConst-writes-Const.bs", c.Prog.Pos(bsF.Pos()), bad == "", "Const.bs is assigned in "+bad)
 }
 
+// checkConstRange: C27.encode and C27.range for every built body of
+// NewConstUint and NewConstInt (generic origin and instantiations).
+func checkConstRange(c *Ctx) {
+	n := 0
+	for _, fn := range c.Prog.FuncsIn(ExprPkg) {
+		if fn.Blocks == nil {
+			continue
+		}
+		name := Origin(fn).Name()
+		if (name != "NewConstUint" && name != "NewConstInt") || (fn.Synthetic != "" && !strings.HasPrefix(fn.Synthetic, "instance")) {
+			continue
+		}
+		n++
+		key := ShortName(fn)
+		pos := c.Prog.FuncPos(fn)
+		// the encoding loop
+		var loop *RangeLoop
+		var ms *ssa.MakeSlice
+		for _, l := range RangeLoops(fn) {
+			if m, ok := Unwrap(l.Over).(*ssa.MakeSlice); ok && !l.IsMap {
+				loop, ms = l, m
+			}
+		}
+		if loop == nil {
+			c.Fail("C27.encode", key, pos, "no range loop over a fresh byte slice: the bytes of the value are not produced one per index")
+			continue
+		}
+		wOK := Unwrap(ms.Len) == ssa.Value(fn.Params[1]) || DependsOn(ms.Len, func(v ssa.Value) bool { return v == ssa.Value(fn.Params[1]) })
+		// store bs[key] = byte(valPhi); valPhi' = valPhi >> 8
+		var valPhi *ssa.Phi
+		storeOK := false
+		for b := range LoopBlocks(loop.Header) {
+			for _, in := range b.Instrs {
+				st, ok := in.(*ssa.Store)
+				if !ok {
+					continue
+				}
+				ia, ok := st.Addr.(*ssa.IndexAddr)
+				if !ok || Unwrap(ia.X) != ssa.Value(ms) || ia.Index != loop.Key {
+					continue
+				}
+				// byte(val): a conversion to byte (none at all when T is uint8)
+				var src ssa.Value = st.Val
+				switch cv := st.Val.(type) {
+				case *ssa.Convert:
+					src = cv.X
+				case *ssa.MultiConvert:
+					src = cv.X
+				case *ssa.ChangeType:
+					src = cv.X
+				}
+				if bt, isB := st.Val.Type().Underlying().(*types.Basic); !isB || bt.Kind() != types.Uint8 {
+					continue
+				}
+				if ph, isPhi := src.(*ssa.Phi); isPhi && ph.Block() == loop.Header {
+					valPhi, storeOK = ph, true
+				}
+			}
+		}
+		shiftOK := false
+		if valPhi != nil {
+			for i, e := range valPhi.Edges {
+				pred := loop.Header.Preds[i]
+				if loop.Header.Dominates(pred) {
+					bo, ok := e.(*ssa.BinOp)
+					k, isK := int64(0), false
+					if ok {
+						k, isK = ConstInt(bo.Y)
+					}
+					shiftOK = ok && bo.Op == token.SHR && bo.X == ssa.Value(valPhi) && isK && k == 8
+				} else if Unwrap(e) != ssa.Value(fn.Params[0]) {
+					storeOK = false
+				}
+			}
+		}
+		c.Oblige("C27.encode", key, pos, wOK && storeOK && shiftOK, "the constant's bytes are not byte(val), byte(val>>8), ... of the function's own value in a fresh slice of w bytes")
+		if valPhi == nil {
+			c.Fail("C27.range", key, pos, "the rest of the value behind the encoding loop cannot be identified")
+			continue
+		}
+		// decision table
+		isTop := func(v ssa.Value) bool {
+			ld, ok := v.(*ssa.UnOp)
+			if !ok || ld.Op != token.MUL {
+				return false
+			}
+			ia, ok := ld.X.(*ssa.IndexAddr)
+			if !ok || Unwrap(ia.X) != ssa.Value(ms) {
+				return false
+			}
+			base, off := LinOff(ia.Index)
+			call, isCall := base.(*ssa.Call)
+			if !isCall || off != -1 {
+				return false
+			}
+			bi, isBi := call.Call.Value.(*ssa.Builtin)
+			return isBi && bi.Name() == "len" && Unwrap(call.Call.Args[0]) == ssa.Value(ms)
+		}
+		bad := ""
+		for _, rest := range []int64{0, -1, 1, -2, 200} {
+			if name == "NewConstUint" && rest < 0 {
+				continue
+			}
+			for _, top := range []int64{0, 0x7f, 0x80, 0xff} {
+				val := &Valuation{Int: func(v ssa.Value) (int64, bool) {
+					if v == ssa.Value(valPhi) {
+						return rest, true
+					}
+					if isTop(v) {
+						return top, true
+					}
+					// len(bs) of the w-byte slice: the table is for w >= 1
+					if call, ok := v.(*ssa.Call); ok {
+						if bi, isBi := call.Call.Value.(*ssa.Builtin); isBi && bi.Name() == "len" && Unwrap(call.Call.Args[0]) == ssa.Value(ms) {
+							return 4, true
+						}
+					}
+					return 0, false
+				}}
+				res := val.Walk(loop.Done, loop.Header)
+				if !res.OK {
+					bad = fmt.Sprintf("with rest=%d top byte=%#x the accept/reject decision cannot be followed: %s", rest, top, res.Why)
+					break
+				}
+				_, panics := res.End.(*ssa.Panic)
+				want := rest != 0
+				if name == "NewConstInt" {
+					want = !((rest == 0 && top < 128) || (rest == -1 && top >= 128))
+				}
+				if panics != want {
+					verdict := map[bool]string{true: "rejected", false: "accepted"}
+					bad = fmt.Sprintf("a value whose bytes above w are %d and whose top stored byte is %#x is %s but must be %s", rest, top, verdict[panics], verdict[want])
+					break
+				}
+			}
+			if bad != "" {
+				break
+			}
+		}
+		c.Oblige("C27.range", key, pos, bad == "", bad)
+	}
+	c.RequireCount("C27.range constructor bodies (NewConstUint, NewConstInt, generic and instantiated)", n, 2)
+}
+
 // --------------------------------------------------------------------- C15
 
 func checkC15(c *Ctx) {
@@ -224,7 +371,12 @@ func checkC15(c *Ctx) {
 	c.Rule("C15.idiom", "dedupBlocks compacts in place and returns bs[:j]")
 	c.Rule("C15.overlap", "dedupBlocks returns an error on the edge prev.end() > next.begin; NewBytes copies every block's bytes, sorts by begin, and propagates that error")
 	c.Rule("C15.load", "Bytes.Load returns expr.NewConst (a copy) of the block's bytes only when the address was found in a block that reaches the end of the read; Store panics on non-constants")
+	c.Rule("C15.shift", "memmove direction: an in-place element shift s[i+k] = s[i] walks against the direction of travel (or uses the overlap-safe builtin copy); Bytes.store opens the slot it fills by such a shift of everything from the insertion index")
 	ownRule(c, "C15.own", pkgScope(pkgMemory))
+	checkShifts(c, "C15.shift", pkgMemory)
+	if st := anchor(c, "(*"+pkgMemory+".Bytes).store"); st != nil {
+		checkInsertion(c, "C15.shift", st, "blocks")
+	}
 	checkSetTerm(c, "C15.set", "(*"+pkgMemory+".Bytes).Missing", []string{"whole", "blocks"},
 		func(a map[string]bool) bool { return a["whole"] && !a["blocks"] }, "[addr,addr+w) \\ blocks")
 	checkSetTerm(c, "C15.set", "(*"+pkgMemory+".Bytes).Blocks", []string{"blocks"},
@@ -344,6 +496,104 @@ func checkC15(c *Ctx) {
 		}
 		c.Oblige("C15.load", ShortName(st)+"/write-width", c.Prog.FuncPos(st), widthOK, "the constant is not adjusted to the write width before being stored")
 	}
+}
+
+// checkShifts judges every in-place element shift of the package by the
+// memmove direction rule. The count may be zero (builtin copy is overlap-safe).
+func checkShifts(c *Ctx, rule, pkg string) int {
+	n := 0
+	for _, fn := range c.Prog.FuncsIn(ModulePath + "/" + pkg) {
+		for i, sh := range FindShifts(fn) {
+			n++
+			c.Oblige(rule, fmt.Sprintf("%s/shift#%d", ShortName(fn), i+1), c.Prog.Pos(sh.Store.Pos()), sh.Safe(),
+				fmt.Sprintf("elements travel by %+d but the loop walks %s: each element is overwritten before it is moved, so one element is smeared over the rest", sh.K, dirName(sh.Dir)))
+		}
+	}
+	c.Note(fmt.Sprintf("%s: %d in-place shift loops judged in %s", rule, n, pkg))
+	return n
+}
+
+// mayFollow: b may execute after a.
+func mayFollow(a, b ssa.Instruction) bool {
+	found := false
+	ReachableFromInstr(a, func(in ssa.Instruction) {
+		if in == b {
+			found = true
+		}
+	})
+	return found
+}
+
+func dirName(d int) string {
+	switch {
+	case d > 0:
+		return "upwards"
+	case d < 0:
+		return "downwards"
+	}
+	return "in an undetermined direction"
+}
+
+// checkInsertion: fn stores a fresh element into field[idx] of a slice that it
+// has just grown by one; everything from idx must have been moved one slot up
+// first: by copy(s[idx+1:], s[idx:]) or by a safe shift loop with K=+1.
+func checkInsertion(c *Ctx, rule string, fn *ssa.Function, field string) {
+	isField := func(v ssa.Value) bool {
+		n, _, ok := FieldNameOfLoad(v)
+		return ok && n == field
+	}
+	n := 0
+	for _, b := range fn.Blocks {
+		for _, in := range b.Instrs {
+			st, ok := in.(*ssa.Store)
+			if !ok {
+				continue
+			}
+			dst, ok := st.Addr.(*ssa.IndexAddr)
+			if !ok || !isField(dst.X) {
+				continue
+			}
+			if ld, isLd := st.Val.(*ssa.UnOp); isLd {
+				if src, isIdx := ld.X.(*ssa.IndexAddr); isIdx && isField(src.X) {
+					continue // a move within the slice, judged as a shift
+				}
+			}
+			n++
+			opened := false
+			why := "no shift of the elements from the insertion index precedes the store: the element at that index is overwritten (or duplicated)"
+			for _, sh := range FindShifts(fn) {
+				if !isField(sh.S) || sh.K != 1 {
+					continue
+				}
+				if !sh.Safe() {
+					why = "the slot is opened by a shift loop that walks with the direction of travel"
+					continue
+				}
+				if mayFollow(sh.Store, st) {
+					opened = true
+				}
+			}
+			for _, cs := range Calls(fn) {
+				bi, isBi := cs.Common().Value.(*ssa.Builtin)
+				if !isBi || bi.Name() != "copy" {
+					continue
+				}
+				d, dOK := cs.Common().Args[0].(*ssa.Slice)
+				s, sOK := cs.Common().Args[1].(*ssa.Slice)
+				if !dOK || !sOK || !isField(d.X) || !isField(s.X) || d.Low == nil || s.Low == nil {
+					continue
+				}
+				db, doff := LinOff(d.Low)
+				sb, soff := LinOff(s.Low)
+				ib, ioff := LinOff(dst.Index)
+				if SameValue(db, sb) && SameValue(sb, ib) && doff-soff == 1 && soff == ioff && mayFollow(cs.Instr, st) {
+					opened = true
+				}
+			}
+			c.Oblige(rule, ShortName(fn)+"/insert", c.Prog.Pos(st.Pos()), opened, why)
+		}
+	}
+	c.RequireCount(rule+" insertion store in "+ShortName(fn), n, 1)
 }
 
 // --------------------------------------------------------------------- C16
